@@ -614,15 +614,27 @@ def case_term(sched, obs):
 
 
 CASE_HEADER = """From Coq Require Import List ZArith Bool.
-From IRV Require Import Base.Exn C11.Model.
+From IRV Require Import Base.Exn C11.Model C11.Heap Gen.C11Gen C11.HeapRun.
 Import ListNotations.
 """
+
+
+def generate(ck) -> bool:
+    """Per-run translation of _linked_list.py into Gen/C11Gen.v (fail-closed)."""
+    from harness.props import _c11_translate as T
+    try:
+        text = T.translate(SRC_LL)
+    except (T.Unsupported, SyntaxError, OSError) as e:
+        ck.gen_failed("C11Gen", e)
+        return False
+    ck.gen("C11Gen", text)
+    return True
 
 
 def cases_file(cases) -> str:
     return (CASE_HEADER + "Definition cases : list (list elt * list (ev * option obs)) :=\n ["
             + ";\n ".join(case_term(s, o) for s, o in cases) + "].\n"
-            "Eval vm_compute in (failing agree cases).\n")
+            "Eval vm_compute in (failing agree cases ++ map (fun i => 100000 + i) (failing hagree cases)).\n")
 
 
 # =========================================================================== generators
@@ -837,6 +849,9 @@ class RecImpl:
                     return ("ok", self.back[id(next(self.iters[e[1]]))])
                 except StopIteration:
                     return ("ok", None)
+            if op == "restart":          # iter(it): RecursiveGraphIterator.__iter__ starts over; a generator returns itself
+                self.iters[e[1]] = iter(self.iters[e[1]])
+                return ("ok", None)
             g, sub = self.graphs[e[1]], e[2]
             if sub == "append":
                 g.append(O[e[3]])
@@ -890,6 +905,13 @@ def oracle_rec(sched, obs):
                            "asked": True, "started": False}])
         elif op == "fnew":
             iters.append(["flat", specs[e[1]].new_cursor(bool(e[2]))])
+        elif op == "restart":
+            it = iters[e[1]]
+            if res[0] != "ok":
+                bad.append(f"{t}: iter(it) raised {res[1]}")
+            if it[0] == "rec":       # a new traversal of the top graph; the abandoned one owes no more callbacks
+                it[2] = [[0, specs[0].new_cursor(it[1]), []]]
+                it[3].update({"open": [], "last": None, "asked": True, "started": False})
         elif op == "step":
             it = iters[e[1]]
             if res[0] != "ok":
@@ -1014,6 +1036,8 @@ def gen_rec(rng, steps):
             n += 1
         elif r < 0.5:
             events.append(["step", rng.randrange(n)])
+        elif r < 0.53:
+            events.append(["restart", rng.randrange(n)])
         else:
             gid = rng.choice([0, 0, 1, 1, 2, 3, 4, 5])
             pool = REC_POOLS[gid]
@@ -1046,6 +1070,8 @@ def rec_case_term(sched, obs):
             ev = f"FNew {e[1]} {'true' if e[2] else 'false'}"
         elif op == "step":
             ev = f"RStep {e[1]}"
+        elif op == "restart":
+            ev = f"RRestart {e[1]}"
         else:
             g, sub = e[1], e[2]
             ed = {"append": lambda: f"Append {e[3]}", "remove": lambda: f"Remove {e[3]}",
@@ -1086,7 +1112,7 @@ def _valid(sched):
     for e in sched["events"]:
         if e[0] in ("new", "rnew", "fnew"):
             n += 1
-        elif e[0] == "step" and e[1] >= n:
+        elif e[0] in ("step", "restart") and e[1] >= n:
             return False
     return True
 
@@ -1116,10 +1142,10 @@ def shrink(sched):
                 k = sum(1 for e in cur["events"][:i] if e[0] in ("new", "rnew", "fnew"))
                 ev2 = []
                 for e in c2["events"]:
-                    if e[0] == "step":
+                    if e[0] in ("step", "restart"):
                         if e[1] == k:
                             continue
-                        e = ["step", e[1] - 1] if e[1] > k else e
+                        e = [e[0], e[1] - 1] if e[1] > k else e
                     ev2.append(e)
                 c2["events"] = ev2
             if fails(c2):
@@ -1190,7 +1216,9 @@ def tree_files(init, cursors, depth, elems):
         count += 1
         sub = build([e], depth - 1) if depth > 1 else "T []"
         text = (CASE_HEADER + f"Definition t : tcase := T [TE ({coq_ev(e)}) (OB {obs_args(o)}) ({sub})].\n"
-                f"Eval vm_compute in (tree_fail {_nl(init)} {clist('true' if f else 'false' for f in cursors)} t).\n")
+                f"Eval vm_compute in (match tree_fail {_nl(init)} {clist('true' if f else 'false' for f in cursors)} t with\n"
+                f"  | [] => map (fun i => 100000 + i) (htree_fail {_nl(init)} {clist('true' if f else 'false' for f in cursors)} t)\n"
+                f"  | p => p end).\n")
         files.append((f"tree_{len(init)}_{''.join('f' if f else 'b' for f in cursors)}_{i}", text, e))
     return files, count
 
@@ -1244,9 +1272,17 @@ def coq_compare(ck, cases, tag, printer=None):
     for (name, _), (rc, o), ch in zip(texts, res, chunks):
         if rc != 0:
             raise RuntimeError(f"case file {name} did not compile:\n{o[-2000:]}")
+        seen_idx = set()
         for i in common.parse_nat_list(o):
-            out.append(ch[i])
+            # index >= 100000: the TRANSLATED code (Gen/C11Gen.v on the box heap) diverges; below: the hand model
+            WHICH.setdefault(id(ch[i % 100000][0]), set()).add("translated-code" if i >= 100000 else "hand-model")
+            if i % 100000 not in seen_idx:
+                seen_idx.add(i % 100000)
+                out.append(ch[i % 100000])
     return out
+
+
+WHICH: dict = {}
 
 
 def first_divergence(ck, sched, obs):
@@ -1280,6 +1316,7 @@ def run(ck) -> None:
                        "CPython generators: a suspended generator resumes after its yield; exhausted generators stay exhausted"]
     ck.coverage["rule"] = ("non-trivial = a next() call whose iterator is parked on an erased box (tombstone chain), "
                            "or an insertion/removal adjacent to a parked iterator")
+    generate(ck)
     ck.prove()
     rng = ck.rng
     seen: set = set()
@@ -1327,7 +1364,8 @@ def run(ck) -> None:
     for s, obs in mism[:3]:
         k = first_divergence(ck, s, obs)
         ck.broken("correspondence:DoublyLinkedSet-model",
-                  json.dumps({"schedule": dict(s, events=s["events"][:k]), "impl_observation": obs[k - 1]}))
+                  json.dumps({"diverging": sorted(WHICH.get(id(s), [])),
+                              "schedule": dict(s, events=s["events"][:k]), "impl_observation": obs[k - 1]}))
     rmism = []
     try:
         rmism = coq_compare(ck, rcases, "rcases", rec_cases_file)
@@ -1364,6 +1402,11 @@ def run(ck) -> None:
                 ck.broken("correspondence:tree-files", f"{name} did not compile: {o[-1500:]}")
                 continue
             p = common.parse_nat_list(o)
+            if p and p[0] >= 100000:
+                ck.hist("diverged", "translated-code(tree)")
+                p = [x - 100000 for x in p]
+            elif p:
+                ck.hist("diverged", "hand-model(tree)")
             if p:
                 tree_mism.append({"kind": "dls", "init": init, "universe": 3,
                                   "events": [["new", f] for f in cursors] + path_of(p, first, elems)})
